@@ -163,6 +163,14 @@ class DocstringSectionRenderer:
         return writer.getvalue().splitlines()
 
 
+def escape_docstring_text(text: str) -> str:
+    """
+    Make free text safe inside a triple-double-quoted docstring: backslashes are doubled (so escape-like
+    sequences stay literal), a run of three double quotes cannot close the docstring, NUL cannot occur.
+    """
+    return text.replace("\\", "\\\\").replace('"""', '\\"\\"\\"').replace("\x00", "\\x00")
+
+
 class DocumentationWriter:
     """
     Renders a DocumentationBlock into a Google-style Python docstring.
@@ -218,5 +226,7 @@ class DocumentationWriter:
             lines.append("")
             lines.append("Raises:")
             lines.extend(self.section_renderer.render_raises(doc.raises, indent + 4))
+        # Text from the specification must stay inside the docstring: escape backslashes, triple quotes and NUL
+        lines = [lines[0]] + [escape_docstring_text(line) for line in lines[1:]]
         lines.append('"""')
         return "\n".join(lines)
